@@ -275,6 +275,7 @@ func init() {
 					// sequential answers (hook off)
 					quadtree.VerifVisitHook = nil
 					seq := make([][]orb.Pointer, nq)
+					seqNil := make([]bool, nq)
 					sbuf := make([]orb.Pointer, 0, 64)
 					if twin.VerifHash(idf) != hash0 {
 						c.Fail("", "harness: the twin tree differs from the tree after the same operations", map[string]interface{}{"config": cfg})
@@ -284,6 +285,11 @@ func init() {
 					for i := range qs {
 						res := c19run(twin, &qs[i], pick(&qs[i], sbuf, slast))
 						seq[i] = append([]orb.Pointer(nil), res...)
+						seqNil[i] = res == nil
+						if len(live) == 0 && len(res) != 0 {
+							c.Fail("", "a query on a tree that holds nothing returned pointers", map[string]interface{}{"config": cfg, "query": fmt.Sprintf("%+v", qs[i]), "returned": len(res)})
+							return
+						}
 						if qs[i].useBuf != 0 && qs[i].kind >= 2 {
 							slast = res
 						}
@@ -331,6 +337,13 @@ func init() {
 									my = append(my, c19span{g, e0, e1})
 									want := seq[qi]
 									ok := len(res) == len(want)
+									if qs[qi].useBuf != 2 && qs[qi].kind >= 2 {
+										// with the same (nil or empty) buffer the form of "nothing" is the same too
+										ok = ok && (res == nil) == (seqNil[qi])
+									}
+									if len(live) == 0 {
+										ok = ok && len(res) == 0 // nothing can come out of a tree that holds nothing
+									}
 									for i := 0; ok && i < len(res); i++ {
 										ok = res[i] == want[i]
 									}
